@@ -328,6 +328,20 @@ def _check_results(ctx, case, an, X, D, first_block_data):
         exp = _np_disc(case['discriminant'], res)
         if scores.shape != exp.shape or not np.array_equal(scores, exp, equal_nan=True):
             raise Violation('%s attack: scores are not %s(results) (shape %s vs %s)' % (a, case['discriminant'], scores.shape, exp.shape), case)
+        other = case.get('second_discriminant')
+        if other:
+            # the discriminant is a public attribute: after changing it, compute_results() must give other(results) (no new traces)
+            an.discriminant = getattr(scared, other)
+            with warnings.catch_warnings():
+                warnings.simplefilter('ignore')
+                must(case, 'compute_results() after changing the discriminant', an.compute_results)
+            exp2 = _np_disc(other, np.asarray(an.results))
+            if not np.array_equal(np.asarray(an.scores), exp2, equal_nan=True):
+                raise Violation('%s attack: after attack.discriminant = %s and compute_results(), scores are not %s(results)' % (a, other, other), case)
+            an.discriminant = getattr(scared, case['discriminant'])
+            with warnings.catch_warnings():
+                warnings.simplefilter('ignore')
+                an.compute_results()
 
 
 def replay(ctx, case):
@@ -443,6 +457,7 @@ def cases(draw, analysis, precision, large=False):
         ng = draw(st.integers(2, 5))
         case['guesses'] = sorted(set(int(v) for v in g.integers(0, 16, size=ng))) if draw(st.booleans()) else list(range(ng))
         case['discriminant'] = draw(st.sampled_from(DISCS))
+        case['second_discriminant'] = draw(st.sampled_from([None, None] + DISCS))
         # an attack may also be asked for convergence traces: results and scores must not depend on it
         case['convergence_step'] = draw(st.sampled_from([None, None, None, 'bs', 'rand', 'rand']))
         if case['convergence_step'] == 'bs':
